@@ -480,6 +480,8 @@ class Unit:
         return Unit(
             self.expr**p,
             base_value=(self.base_value**p),
+            # only reachable with a non-zero offset when p == 1: u**1 is u
+            base_offset=self.base_offset,
             dimensions=(self.dimensions**p),
             registry=self.registry,
         )
